@@ -28,6 +28,8 @@ pub struct Faults {
     pub cow: bool,
     pub badidx: bool,
     pub mismatch: bool,
+    /// other interpolators are built over the same storage while this one is being queried
+    pub sibling: bool,
 }
 
 impl Faults {
@@ -43,6 +45,7 @@ impl Faults {
                 cow: false,
                 badidx: false,
                 mismatch: false,
+                sibling: false,
             },
             _ => Faults {
                 oob: r.chance(3, 4),
@@ -54,6 +57,7 @@ impl Faults {
                 cow: r.chance(1, 2),
                 badidx: r.chance(1, 4),
                 mismatch: r.chance(1, 4),
+                sibling: r.chance(1, 2),
             },
         }
     }
@@ -221,6 +225,14 @@ pub fn gen_slot(r: &mut Rng, mode: Mode) -> SlotCfg {
             for l in 0..lanes {
                 data[(nx - 1) * lanes + l] = data[l];
             }
+        } else if !two && r.chance(1, 5) {
+            // "nearly periodic" data: legal for every strategy but Periodic, and one rounding error
+            // away from being accepted by a Periodic sibling built over the same storage
+            let rel = *r.pick(&[0.0, 1e-7, 1e-9, 1e-12, 2.3e-16]);
+            for l in 0..lanes {
+                let v = data[l] * (1.0 + rel);
+                data[(nx - 1) * lanes + l] = if f32ok { v as f32 as f64 } else { v };
+            }
         }
         return SlotCfg {
             kind,
@@ -301,6 +313,7 @@ struct SlotCtx {
     ny: usize,
     probe: bool,
     shared: bool,
+    can_sibling: bool,
     f32ok: bool,
     lo_hi_x: (f64, f64),
     lo_hi_y: (f64, f64),
@@ -349,10 +362,11 @@ fn gen_buf(r: &mut Rng, exact_shape: &[usize], faults: &Faults, dynamic: bool) -
 fn gen_call(r: &mut Rng, sc: &SlotCtx, faults: &Faults, mode: Mode) -> Call {
     let kx = |r: &mut Rng| Fb(*r.pick(&sc.keys_x));
     let ky = |r: &mut Rng| if sc.two { Fb(*r.pick(&sc.keys_y)) } else { Fb(0.0) };
-    let w: [usize; 9] = match mode {
-        Mode::C18 => [2, 2, 2, 5, 5, 0, 0, 0, 0],
-        Mode::C17Miri => [3, 2, 1, 3, 2, 1, 2, 1, if faults.cow && sc.shared { 1 } else { 0 }],
-        Mode::C17 => [3, 3, 2, 5, 4, 1, 2, 1, if faults.cow && sc.shared { 2 } else { 0 }],
+    let sib_w = if faults.sibling && sc.can_sibling { 2 } else { 0 };
+    let w: [usize; 10] = match mode {
+        Mode::C18 => [2, 2, 2, 5, 5, 0, 0, 0, 0, 0],
+        Mode::C17Miri => [3, 2, 1, 3, 2, 1, 2, 1, if faults.cow && sc.shared { 1 } else { 0 }, sib_w],
+        Mode::C17 => [3, 3, 2, 5, 4, 1, 2, 1, if faults.cow && sc.shared { 2 } else { 0 }, sib_w],
     };
     match r.weighted(&w) {
         0 => Call::Scalar { x: kx(r), y: ky(r) },
@@ -414,8 +428,23 @@ fn gen_call(r: &mut Rng, sc: &SlotCtx, faults: &Faults, mode: Mode) -> Call {
         }
         6 => Call::IndexLeftOf { x: kx(r), y: ky(r) },
         7 => Call::InRange { x: kx(r), y: ky(r) },
-        _ => Call::Cow,
+        8 => Call::Cow,
+        _ => gen_sibling(r, sc),
     }
+}
+
+fn gen_sibling(r: &mut Rng, sc: &SlotCtx) -> Call {
+    let x = Fb(*r.pick(&sc.keys_x));
+    let extrapolate = r.chance(1, 2);
+    if sc.two {
+        return Call::Sibling { strat: SibStrat::Bilinear { extrapolate }, x, y: Fb(*r.pick(&sc.keys_y)) };
+    }
+    let strat = if sc.nx >= 3 && r.chance(3, 4) {
+        SibStrat::Spline { bc: [Bc::Periodic, Bc::NotAKnot, Bc::Natural, Bc::Clamped][r.weighted(&[4, 1, 1, 1])].clone(), extrapolate }
+    } else {
+        SibStrat::Linear { extrapolate }
+    };
+    Call::Sibling { strat, x, y: Fb(0.0) }
 }
 
 fn slot_ctx(r: &mut Rng, cfg: &SlotCfg, faults: &Faults, mode: Mode) -> SlotCtx {
@@ -438,6 +467,7 @@ fn slot_ctx(r: &mut Rng, cfg: &SlotCfg, faults: &Faults, mode: Mode) -> SlotCtx 
         ny: ay.len(),
         probe: cfg.kind.is_probe(),
         shared: cfg.storage == Storage::Shared,
+        can_sibling: cfg.storage != Storage::Owned && cfg.elem == Elem::F64,
         f32ok,
         lo_hi_x: (ax[0], ax[ax.len() - 1]),
         lo_hi_y: (ay[0], ay[ay.len() - 1]),
@@ -469,11 +499,29 @@ pub struct Generated {
 /// Engine B "hammer" workload: one interpolator, 2-3 threads, many cheap in-range calls on 2-3
 /// hot keys that lie in different segments. Narrow race windows need many colliding calls, and
 /// under Miri the fixed start-up cost dominates, so a dense workload is the efficient one.
-fn gen_hammer(r: &mut Rng) -> Generated {
-    let faults = Faults { oob: false, badbuf: false, strat_err: false, strat_panic: false, crash: false, stall: false, cow: false, badidx: false, mismatch: false };
+/// Engine B workloads are stratified by their index, so that even a handful of them covers every
+/// built-in strategy: index % 4 selects Linear / CubicSpline / Bilinear / any, and two of three
+/// are dense "hammer" workloads.
+pub fn gen_miri(seed: u64, index: u64) -> Generated {
+    let want = [Some(Kind::Linear), Some(Kind::Spline), Some(Kind::Bilinear), None][(index % 4) as usize];
+    let hammer = (index / 4) % 3 != 2;
+    let mut r = Rng::new(seed);
+    if hammer {
+        return gen_hammer(&mut r, want);
+    }
+    loop {
+        let g = gen_run_inner(r.next_u64(), Mode::C17Miri);
+        if want.is_none() || g.spec.slots.iter().any(|s| Some(s.kind) == want) {
+            return g;
+        }
+    }
+}
+
+fn gen_hammer(r: &mut Rng, want: Option<Kind>) -> Generated {
+    let faults = Faults { oob: false, badbuf: false, strat_err: false, strat_panic: false, crash: false, stall: false, cow: false, badidx: false, mismatch: false, sibling: true };
     let cfg = loop {
         let c = gen_slot(r, Mode::C17Miri);
-        if c.elem == Elem::F64 {
+        if c.elem == Elem::F64 && (want.is_none() || Some(c.kind) == want) {
             break c;
         }
     };
@@ -520,6 +568,25 @@ fn gen_hammer(r: &mut Rng) -> Generated {
         };
         pool.push(Op { slot: 0, call, plan: vec![], yield_mask: 0, check_acc: false });
     }
+    if cfg.storage != Storage::Owned && r.chance(1, 2) {
+        // somebody keeps building other interpolators over the same storage meanwhile
+        let sc = SlotCtx {
+            keys_x: kx.clone(),
+            keys_y: ky.clone(),
+            two,
+            trailing: cfg.trailing(),
+            nx: ax.len(),
+            ny: ay.len(),
+            probe: false,
+            shared: cfg.storage == Storage::Shared,
+            can_sibling: true,
+            f32ok: false,
+            lo_hi_x: (ax[0], ax[ax.len() - 1]),
+            lo_hi_y: (ay[0], ay[ay.len() - 1]),
+        };
+        let call = gen_sibling(r, &sc);
+        pool.push(Op { slot: 0, call, plan: vec![], yield_mask: 0, check_acc: false });
+    }
     let threads = (0..n_threads)
         .map(|_| ThreadSpec { ops: (0..r.range(10, 18)).map(|_| pool[r.below(pool.len())].clone()).collect(), crash_on_fault: false })
         .collect();
@@ -528,10 +595,11 @@ fn gen_hammer(r: &mut Rng) -> Generated {
 
 /// one complete run specification from one seed
 pub fn gen_run(seed: u64, mode: Mode) -> Generated {
+    gen_run_inner(seed, mode)
+}
+
+fn gen_run_inner(seed: u64, mode: Mode) -> Generated {
     let mut r = Rng::new(seed);
-    if mode == Mode::C17Miri && r.chance(1, 2) {
-        return gen_hammer(&mut r);
-    }
     let faults = Faults::draw(&mut r, mode);
     let n_slots = match mode {
         Mode::C17Miri => r.weighted(&[0, 4, 1]),
